@@ -273,4 +273,9 @@ example :
 example : SStart seedRace := ⟨rfl, rfl, rfl, fun t th h => by
   rcases t with _ | _ | t <;> simp [seedRace] at h <;> subst h <;> rfl⟩
 
+
+/-- every source fact this property's model consumes was located in the current source by tools/extract (a fact that is not
+found is emitted with a placeholder value; this obligation then fails and the check uses the reference model) -/
+theorem source_facts_located_c18 : JsonC.Generated.factsFound_thr = true := by decide
+
 end JsonC.Threads
